@@ -216,7 +216,8 @@ func (cropOW *CropOverwrite) isValidCropOverwrite(numPartitions, numStages int) 
 		}
 		if key == "TSUM" {
 			for _, value := range stages {
-				if value < 0 || value > 10000 {
+				// a temperature sum of 0 divides 0 by 0 in the development fractions (SUM/TSUM)
+				if value <= 0 || value > 10000 {
 					return false, fmt.Errorf("invalid value for TSUM: %f", value)
 				}
 			}
